@@ -170,6 +170,9 @@ package nsx
 //vc:spec func supportedEntry(t string) bool = t == "IPProtocolServiceEntry" || t == "L4PortSetServiceEntry" || t == "ICMPTypeServiceEntry"
 //vc:spec macro entriesSupported(g *nsxService) bool = forall j int :: { g.ServiceEntries[j] } 0 <= j && j < len(g.ServiceEntries) ==> supportedEntry(g.ServiceEntries[j].ResourceType)
 //vc:func checkRaw
+// C18: a raw group or rule whose id looks generated (Netspoc-g<digit>..., r<digit>...) is rejected, whatever follows the digit
+//vc:  assert[C18] at "re = regexp.MustCompile(" @generatedGroupPatternPinned arg0 == "^Netspoc-g\\d"
+//vc:  assert[C18] at "re := regexp.MustCompile(" @generatedRulePatternPinned arg0 == "^r\\d"
 //vc:  invariant[C07] 1 "for _, p := range c.Policies" @policiesSoFarPrefixed -1 <= rangeindex && (forall k int :: { c.Policies[k] } 0 <= k && k <= rangeindex ==> strings.HasPrefix(c.Policies[k].Id, "Netspoc"))
 //vc:  invariant[C07] 2 "for _, r := range p.Rules" true
 //vc:  invariant[C07] 3 "for _, g := range c.Groups" @groupsSoFarPrefixed -1 <= rangeindex && (forall k int :: { c.Groups[k] } 0 <= k && k <= rangeindex ==> strings.HasPrefix(c.Groups[k].Id, "Netspoc"))
@@ -247,6 +250,11 @@ package nsx
 // side (a rule from a raw file may refer to a group of the device that Netspoc
 // does not define: the pair must count as equal, so that equalizeGroups marks
 // the group as needed instead of the rule being re-created and the group deleted).
+// rules that count as equal have the same scope and the same profiles, element by element
+//vc:func (*rulesPair).Equal
+//vc:  hypothesis[C04] 0 <= ai && ai < len(ab.a.rules) && 0 <= bi && bi < len(ab.b.rules) && ab.a.rules[ai] != nil && ab.b.rules[bi] != nil
+//vc:  ensures[C04] @equalRulesHaveSameScope result ==> len(ab.a.rules[ai].Scope) == len(ab.b.rules[bi].Scope) && (forall k int :: { ab.a.rules[ai].Scope[k] } 0 <= k && k < len(ab.a.rules[ai].Scope) ==> ab.a.rules[ai].Scope[k] == ab.b.rules[bi].Scope[k])
+//vc:  ensures[C04] @equalRulesHaveSameProfiles result ==> len(ab.a.rules[ai].Profiles) == len(ab.b.rules[bi].Profiles) && (forall k int :: { ab.a.rules[ai].Profiles[k] } 0 <= k && k < len(ab.a.rules[ai].Profiles) ==> ab.a.rules[ai].Profiles[k] == ab.b.rules[bi].Profiles[k])
 //vc:func (*rulesPair).Equal$1
 //vc:  inline
 //vc:  ensures[C04] @sameReferenceAgrees a == b ==> result
